@@ -27,18 +27,19 @@
   invariant that is measured on every correspondence case, never observed false, not yet proved).
 
   Not in this file: graphql-core's `print_ast`/`parse` between the two models (observed by the harness),
-  black/isort/autoflake on the emitted module, and "re-indentation does not change the GraphQL parse"
-  (`indent_invariant`, stretch tier: validated by the oracle).
+  black/isort/autoflake on the emitted module.  "Re-indentation does not change the GraphQL parse" is proved at
+  token level (`indent_invariant`, over the reference lexer of Spec/GqlLex.lean) and observed at AST level by the oracle.
 -/
 import AriadneModel.Proofs.OpText
 import AriadneModel.Proofs.Embed
+import AriadneModel.Proofs.GqlLex
 
 set_option linter.unusedSimpArgs false
 set_option linter.unusedVariables false
 
 namespace Ariadne.C02
 open Ariadne Ariadne.Gql Ariadne.Util Ariadne.ResultTypes Ariadne.OpText Ariadne.Embed Ariadne.PyStr
-open Ariadne.OpTextProofs Ariadne.EmbedProofs
+open Ariadne.OpTextProofs Ariadne.EmbedProofs Ariadne.GqlLex
 
 /-! ### Vocabulary -/
 
@@ -280,6 +281,17 @@ theorem embed_safe_lines (penv : Char → Bool) (vi off : Nat) (ls : List (List 
 theorem embed_safe (penv : Char → Bool) (vi off : Nat) (q : List Char) (ht : trigger q = none) (hne : splitlines q ≠ []) :
     TextOK penv vi off q :=
   embed_text penv vi off q ht hne
+
+/-- `indent_invariant` (stretch tier): re-indentation keeps the GraphQL tokens (reference lexer of
+    Spec/GqlLex.lean — line-local, no block strings; validated against graphql-core's lexer on every run). -/
+theorem indent_invariant (k : Nat) (q : List Char) : lexText (expectedSent k q) = lexText q :=
+  GqlLexProofs.indent_invariant k q
+
+/-- the text clause at token level: outside the text triggers the transport receives a text with exactly the
+    tokens of the printed operation (same names, punctuators, numbers and raw string literals, in order). -/
+theorem sent_tokens (penv : Char → Bool) (vi off : Nat) (q : List Char) (ht : trigger q = none) (hne : splitlines q ≠ []) :
+    ∃ s, sentText penv vi off q = some s ∧ lexText s = lexText q :=
+  ⟨expectedSent (vi + off) q, embed_safe penv vi off q ht hne, indent_invariant (vi + off) q⟩
 
 /-- inside a text trigger the model declines (no claim is made there; DESIGN.md §1.2) -/
 theorem embed_unmodelled (penv : Char → Bool) (vi off : Nat) (q : List Char) (t : Trig) (ht : trigger q = some t) :
